@@ -1,9 +1,12 @@
 #!/bin/bash
-# Runs every registered check (quick by default) and prints one line each.
+# Runs registered checks (quick by default) and prints one line each.
+# usage: runall.sh [tier] [PROP ...]
 tier=${1:-quick}; shift
-cd /verif
-for p in $(python3 -c "import propmeta;print(' '.join(sorted(propmeta.META)))"); do
-  out=$(./check $p --tier $tier "$@" 2>&1); rc=$?
+cd "$(dirname "$0")"
+props="$@"
+if [ -z "$props" ]; then props=$(python3 -c "import propmeta;print(' '.join(sorted(propmeta.META)))"); fi
+for p in $props; do
+  out=$(./check $p --tier $tier 2>&1); rc=$?
   echo "$p rc=$rc $(echo "$out" | grep -E 'tier=' | tail -1)"
-  echo "$out" | grep -E "^VIOLATION" | head -5
+  echo "$out" | grep -E "^VIOLATION|^KNOWN|^  [a-z]" | cut -c1-300 | head -8
 done
